@@ -1,5 +1,5 @@
 (* Pinned statements of C05: re-checked on every run. *)
-From SF Require Import Base.Prelude Unsized.Types Unsized.Parse Unsized.Proofs.EncodeParse Properties.C05.
+From SF Require Import Base.Prelude Gen.Generated Unsized.Types Unsized.Parse Unsized.Machine Unsized.Ops Unsized.Run Unsized.Proofs.EncodeParse Unsized.Proofs.Mem Unsized.Proofs.Notify Unsized.Proofs.Flat Unsized.Proofs.Layout Unsized.Proofs.Observe Unsized.Proofs.Path Unsized.Proofs.Context Unsized.Proofs.FocusOps Unsized.Proofs.NotifyInside Unsized.Proofs.Resize Unsized.Proofs.GenOps Unsized.Proofs.History Unsized.Proofs.Init Unsized.Proofs.History2 Unsized.Proofs.ExecTie Properties.C05.
 
 Check (C05_encode_size :
  forall t v, wf t v = true -> zlen (encode t v) = byte_size t v).
@@ -14,9 +14,26 @@ Check (C05_discriminant_roundtrip :
   forall ovf d t v, (0 < length d)%nat -> bytes_ok d = true -> ty_ok true t = true -> wf t v = true ->
     parse ovf (TStruct [TFixed (FAny (length d)); t]) (d ++ encode t v)
     = Ok (VStruct [VBytes d; v], Z.of_nat (length d) + byte_size t v)).
+Check (C05_init_default_exact :
+  forall t, plain t = true -> zero_ok t = true ->
+    init_bytes t 0 = Ok (encode t (dflt t)) /\ init_size t 0 = zlen (encode t (dflt t)) /\ wf t (dflt t) = true).
+Check (C05_init_then_deserialize :
+  forall ovf t, plain t = true -> zero_ok t = true -> ty_ok true t = true ->
+    exists bs, init_bytes t 0 = Ok bs /\ zlen bs = init_size t 0 /\ parse ovf t bs = Ok (dflt t, init_size t 0)).
+Check (C05_init_array_exact :
+  forall c lw kind n, (kind = 1 /\ n = 3) \/ (kind = 2 /\ n = 300) -> n < 256 ^ Z.of_nat lw ->
+    init_bytes (TList c lw) kind = Ok (encode (TList c lw) (VList (repeat (repeat 1 (fsize c)) (Z.to_nat n)))) /\
+    init_size (TList c lw) kind = zlen (encode (TList c lw) (VList (repeat (repeat 1 (fsize c)) (Z.to_nat n))))).
+Check (C05_init_array_too_long :
+  forall c lw kind n, (kind = 1 /\ n = 3) \/ (kind = 2 /\ n = 300) -> 256 ^ Z.of_nat lw <= n ->
+    init_bytes (TList c lw) kind = Err E_TOPRIM).
 
 Print Assumptions C05_encode_size.
 Print Assumptions C05_roundtrip.
 Print Assumptions C05_roundtrip_prefix.
 Print Assumptions C05_roundtrip_general.
 Print Assumptions C05_discriminant_roundtrip.
+Print Assumptions C05_init_default_exact.
+Print Assumptions C05_init_then_deserialize.
+Print Assumptions C05_init_array_exact.
+Print Assumptions C05_init_array_too_long.
